@@ -39,8 +39,8 @@ ASSUMPTIONS = [
     "how many batch calls a layer receives per composite batch is not judged, only the register access sequence",
 ]
 TIERS = {
-    "quick": {"per_shard": 3200, "max_ops": 8, "budget_s": 100},
-    "thorough": {"per_shard": 125000, "max_ops": 16, "budget_s": 1500},
+    "quick": {"per_shard": 2500, "max_ops": 8, "budget_s": 170},
+    "thorough": {"per_shard": 100000, "max_ops": 16, "budget_s": 840},
 }
 
 MAX_LAYERS = 4
